@@ -7,6 +7,14 @@ hook_commits = subprocess.run(['git','-C','/repo','log','--format=%H','--grep=^v
 
 # id -> (technique, level text, level_note, design_ref)
 CLAIMED = {
+ "C07": ("rapid stateful/model-based testing with a twin differential: array histories on the array, on a sparse-forced twin and on esmodel (array exotic object + generic Array.prototype algorithms); sort judged by a stable-sort reference and permutation validity",
+         "Array histories of up to 30 steps (indexed writes/deletes/defines incl. accessors and non-configurable elements, length changes incl. invalid values and shrinking across non-configurable elements, freeze/seal, indexed properties on the prototypes, bulk fills that cross the dense<->sparse switching thresholds, 27 Array.prototype methods incl. callbacks that resize the receiver) are executed on the array, on a twin that was forced into sparse storage, and on esmodel's spec algorithms; results, accessor call logs and complete states must agree three ways after every step. Sort: element lists with holes/undefined/duplicates x 18 comparators x dense/sparse/array-like receivers against the unique stable order, a permutation predicate for inconsistent comparators, and crash-freedom for mutating ones.",
+         "Trusted: esmodel's array algorithms (from ECMA-262 23.1.3). The hook VerifArrayKind is used only to measure that storage transitions really happened. Known finding: a comparator result of -0 is treated as 'less' (pinned test demands it). Go slice wrappers are judged by C13.",
+         "DESIGN.md 4/C07"),
+ "C18": ("rapid stateful/model-based testing: Map/Set operation histories with live iterators against an append-only-list SameValueZero model; symbol-keyed property table histories against an OrdinaryOwnPropertyKeys list model",
+         "Histories of up to 40 operations over a 12-key pool containing SameValueZero-equal keys in different representations (NaN three ways, +0/-0, equal numbers/strings/BigInts built differently, hash-collision classes) on one Map or Set with up to 3 live iterators, forEach/for-of callbacks that mutate the collection, and Go-side Export/ExportTo; every result, iterator step, size and export is compared with a spec-derived list model with tombstones. A second sub-check runs assign/define/delete/mutating-getter histories on the symbol-keyed property table and compares getOwnPropertySymbols/Reflect.ownKeys/Object.assign/spread with a list model.",
+         "Trusted: the list model (written from the Map/Set iterator and OrdinaryOwnPropertyKeys algorithms). Lone-surrogate strings, integer keys on Error objects and object keys exported into Go maps (documented to panic) are excluded by construction.",
+         "DESIGN.md 4/C18"),
  "C04": ("rapid stateful/model-based testing: generated operation histories run in lock-step on goja and on a reference model of the ECMAScript object internal methods (esmodel)",
          "Histories of up to 40 operations (defineProperty with all 64 descriptor shapes, get/set with explicit receivers, delete, has, ownKeys variants, integrity levels, prototype changes, for-in, Object.assign) over 1-3 subjects of 32 object kinds and index/numeric-string/string/symbol keys, issued through syntax (strict and sloppy), Object.* and Reflect.*; after every step the result, the accessor call log and the complete state (ordered keys, descriptors, extensibility, prototype) of every subject are compared with esmodel, which implements 10.1 ordinary objects, 10.4.2 Array (ArraySetLength), 10.4.3 String and 10.4.4 mapped arguments from the specification text. Shrunk histories become replay files.",
          "Trusted: esmodel (written from ECMA-262, independent of goja). The initial property tables are read from the runtime itself, so only behaviour under operations is judged. Typed arrays, Go-backed wrappers and DynamicObject are not yet covered by this check (typed arrays are judged by C17, Go wrappers by C13). The Go API surface (Object.Get/Set/Define...) is exercised by C13/C14, not here.",
